@@ -68,7 +68,34 @@ class FakeMP(object):
 
 
 class FakeEvent(SimEvent):
-    """multiprocessing.Event: shared between parent and children."""
+    """multiprocessing.Event: shared between parent and children.  As in multiprocessing.synchronize.Condition, a
+    process inside wait() is counted as a sleeper until it acknowledges its wake-up; set() waits for that
+    acknowledgement of every sleeper it wakes - a sleeper that was killed never gives it."""
+
+    def __init__(self, sim, name='event'):
+        SimEvent.__init__(self, sim, name)
+        self.sleeping = []
+
+    def wait(self, timeout=None):
+        sim = self.sim
+        sim.prim_point('wait')
+        if self.flag:
+            return True
+        cur = sim._me()
+        self.sleeping.append(cur)
+        self.waiters.append(cur)
+        sim.block(('event', self.name), timeout)      # (a SIGKILL here leaves the sleeper registered for ever)
+        self.sleeping.remove(cur)
+        if cur in self.waiters:
+            self.waiters.remove(cur)
+        return self.flag
+
+    def set(self):
+        SimEvent.set(self)
+        dead = [t for t in self.sleeping if t.killed or t.state in (DONE, DEAD)]
+        if dead:
+            self.sim.run.probe('event_set_waits_for_a_dead_sleeper')
+            self.sim.block(('event-ack', self.name), None)
 
 
 class FakeQueue(object):
